@@ -24,7 +24,7 @@ RULE = ("one run = document containing the E cell (run index mod 144) + schedule
         "collections of every segment compared with the model at every settled step; distinct = distinct "
         "(segment neighbourhood digest) values")
 PROBES = ["cell_checked", "edge_before_segments", "after_rename", "after_removal", "whole_whole_either",
-          "self_edge", "gap_checked", "link_checked", "containment_checked", "derived_queries"]
+          "self_edge", "gap_checked", "link_checked", "containment_checked", "derived_queries", "flip_ref"]
 KINDS = G.INTERVAL_KINDS
 CELLS = [(o1, o2, k1, k2) for o1 in "+-" for o2 in "+-" for k1 in KINDS for k2 in KINDS]
 
@@ -95,6 +95,11 @@ def gen(streams, tier, i, over=None):
             new = sh.fresh(hr)
             m.rename(nm, new)
             ops.append({"op": "rename", "id": nm, "new": new})
+        elif r < 0.6 and version == "gfa2" and any(ns[x][0].rt in ("E", "G") for x in names):
+            # the orientation of a reference of a connected edge / gap edited in place (refused, or the line is
+            # re-filed: either way the collections follow the text)
+            nm = hr.choice([x for x in names if ns[x][0].rt in ("E", "G")])
+            ops.append({"op": "flip_ref", "id": nm, "field": hr.choice(["sid1", "sid2"]), "how": hr.choice(["invert", "set"])})
         elif r < 0.7 and removed:
             t = hr.choice(removed)
             if m.copy().add_text(t) in ("ok", "merged"):
@@ -280,6 +285,29 @@ def run(scn, st):
             continue
         if m.unspecified:
             return
+        if op["op"] == "flip_ref":
+            l = w.gfa.line(op["id"])
+            rec = m.by_name(op["id"])
+            if l is None or rec is None or rec.rt not in ("E", "G"):
+                continue
+            st.count("probe.flip_ref")
+            ol = core.call(l.get, op["field"])
+            if not ol.ok or not isinstance(ol.value, gfapy.OrientedLine):
+                continue
+            if op["how"] == "invert":
+                r_ = core.call(ol.value.invert)
+            else:
+                def _set():
+                    ol.value.orient = "-" if ol.value.orient == "+" else "+"
+                r_ = core.call(_set)
+            if r_.ok:
+                # accepted: the document now says the other orientation
+                j = 1 if op["field"] == "sid1" else 2
+                rec.pos[j] = rec.pos[j][:-1] + ("-" if rec.pos[j][-1] == "+" else "+")
+                st.count("probe.flip_ref_accepted")
+            if m.settled() and w.gfa.version == version:
+                check(w, m, st, n, op)
+            continue
         exp = c05.model_apply(m, op, core.Stats())
         if exp == "skip":
             continue
